@@ -217,6 +217,10 @@ class Parser:
                 if stop_after is not None and not isinstance(pat, tuple):
                     stop_after.discard(pat)
                 continue
+            if self.at("break"):
+                self.next(); self.opt(";")
+                stmts.append(("break",))
+                continue
             if self.at("return"):
                 self.next()
                 e = None if self.at(";") else self.expr()
@@ -370,7 +374,14 @@ class Parser:
                 self.opt("&"); ps.append(self.next()[1]); self.opt(",")
             self.eat("|")
             return ("closure", ps, self.expr())
-        if v in ("while", "loop", "match", "move", "||"):
+        if v == "while":
+            self.next()
+            c = self.expr(nostruct=True)
+            return ("while", c, self.block())
+        if v == "loop":
+            self.next()
+            return ("loop", self.block())
+        if v in ("match", "move", "||"):
             die("unsupported construct %r (loops, matches and closures are modelled by hand)" % v)
         if k == "id":
             segs = [self.next()[1]]
